@@ -90,6 +90,12 @@ def one(ctx, rng, xr, utils):
     key = "%s|%s|nf=%d|nd=%d|full=%s:%s|fw=%d|dw=%d|lead=%d|%s" % (stored, dt, nf, nd, full, conv, fw, dw, len(lnames), cls)
     via = str(rng.choice(["accessor", "function", "dataset"]))
 
+    if rng.random() < 0.3:
+        # spectral dims not last / dir before freq: the result must come back in exactly this order
+        od_ = [str(d_) for d_ in rng.permutation(list(x.dims))]
+        x = x.transpose(*od_)
+        x = x.copy(data=np.ascontiguousarray(x.values))
+        key += "|dims=" + "+".join(od_)
     # dask-backed input chunked along the spectral and/or leading dims (windows must see across chunk boundaries)
     backing = "numpy"
     x_np = x
@@ -137,9 +143,10 @@ def one(ctx, rng, xr, utils):
                 "smooth-changes-grid")
         return
     rec.ok("grid_kept", key)
-    E = x.values.astype("float64")
+    canon = list(lnames) + ["freq", "dir"]
+    E = x.transpose(*canon).values.astype("float64")
     ref, lo, hi = ref_smooth(E, x.dir.values.astype("float64"), fw, dw, full)
-    obs = r.values.astype("float64")
+    obs = r.transpose(*canon).values.astype("float64")
     rt = 2e-5 if dt == "float32" else 1e-9
     sc = np.abs(E).max() if E.size else 0.0
     ok, worst = close(obs, ref, rt, atol=rt * sc)
@@ -157,12 +164,12 @@ def one(ctx, rng, xr, utils):
             except Exception:
                 pass
             x.values[...] = (x.values * 0.5 + rng.random(x.shape)).astype(x.dtype)
-            E2 = x.values.astype("float64")
+            E2 = x.transpose(*canon).values.astype("float64")
             ref2 = ref_smooth(E2, x.dir.values.astype("float64"), fw, dw, full)[0]
             try:
                 r2 = call(fw, dw)
                 r2 = r2.compute() if hasattr(r2, "compute") else r2
-                ok2, worst2 = close(r2.values.astype("float64"), ref2, rt, atol=rt * max(np.abs(E2).max(), 1e-300))
+                ok2, worst2 = close(r2.transpose(*canon).values.astype("float64"), ref2, rt, atol=rt * max(np.abs(E2).max(), 1e-300))
                 (rec.ok("smooth_after_edit", "%s|fw=%d|dw=%d" % (via, fw, dw)) if ok2 else
                  rec.bad("smooth_after_edit", "%s|fw=%d|dw=%d" % (via, fw, dw), {"windows": (fw, dw), "via": via, "worst_over_tol": worst2}, "smooth-returns-result-of-earlier-contents"))
             except Exception as e:
